@@ -17,7 +17,12 @@ Record cev := {
   e_fields : list field;       (* as sent, in the order sent *)
   e_obs : outcome              (* what the router did *)
 }.
-Record case := { c_trace : list string; c_parent : list string; c_events : list cev }.
+Record case := {
+  c_trace : list string;          (* TraceNames as the operator configured them (or the documented default) *)
+  c_parent : list string;         (* ParentNames likewise *)
+  c_loaded_trace : list string;   (* what GetTraceIdFieldNames of the real loaded configuration returns *)
+  c_loaded_parent : list string;
+  c_events : list cev }.
 
 Definition outcome_eqb (a b : outcome) : bool :=
   match a, b with
@@ -60,6 +65,10 @@ Definition check_event (c : idcfg) (e : cev) : codes :=
   (if outcome_eqb (model_outcome c e) (e_obs e) then [] else [code_mismatch]) ++
   (if ev_ok c (e_fields e) && cfg_ok c && table_ok c then monitor c e else []).
 
+(* the configuration loader hands the extraction the operator's lists, in the operator's order *)
+Definition loader_ok (k : case) : bool :=
+  list_eqb String.eqb (c_loaded_trace k) (c_trace k) && list_eqb String.eqb (c_loaded_parent k) (c_parent k).
+
 Definition check (k : case) : codes :=
   let c := std_cfg (c_trace k) (c_parent k) in
-  nodup N.eq_dec (flat_map (check_event c) (c_events k)).
+  nodup N.eq_dec ((if loader_ok k then [] else [16%N]) ++ flat_map (check_event c) (c_events k)).
